@@ -63,7 +63,9 @@ func main() {
 	}
 	m := setupMixed(c, x)
 	// the machine-checked witness of P_Erc20.v first, then generated programs
-	itemsB = append(itemsB, m.run(&MixCase{N: 100, Prog: []MInstr{{K: "Transfer", X: 30}, {K: "BridgeCall", X: 50}}, Seed: -1}, rep))
+	itemsB = append(itemsB, m.run(&MixCase{N: 100, P: 40, Q: 25, Prog: []MInstr{{K: "Transfer", X: 30}, {K: "BridgeCall", X: 50}}, Seed: -1}, rep))
+	itemsB = append(itemsB, m.run(&MixCase{N: 100, P: 40, Q: 25, Prog: []MInstr{{K: "Transfer", X: 30}, {K: "Cancel"}}, Seed: -2}, rep))
+	itemsB = append(itemsB, m.run(&MixCase{N: 100, P: 40, Q: 25, Prog: []MInstr{{K: "BalanceOfC"}, {K: "ExecClaim"}, {K: "Transfer", X: 1}}, Seed: -3}, rep))
 	for i := 0; i < nB; i++ {
 		r := lib.NewRand(seed*2_000_003 + int64(i))
 		itemsB = append(itemsB, m.run(genMix(r, i, seed*2_000_003+int64(i)), rep))
@@ -526,6 +528,8 @@ type MInstr struct {
 type MixCase struct {
 	Seed int64    `json:"prog_seed"`
 	N    int64    `json:"n"`
+	P    int64    `json:"pending_transfer"` // the contract's own unbatched crossChain transfer made before the transaction
+	Q    int64    `json:"pending_claim"`    // observed, not yet executed SendToFx (erc20 target) for the contract
 	Prog []MInstr `json:"prog"`
 	OK   bool     `json:"ok"`
 	Obs  []string `json:"obs,omitempty"`
@@ -571,13 +575,17 @@ func (i MInstr) Coq() string {
 		return fmt.Sprintf("MCrossChain %d", i.X)
 	case "BridgeCall":
 		return fmt.Sprintf("MBridgeCall %d", i.X)
+	case "Cancel":
+		return "MCancel"
+	case "ExecClaim":
+		return "MExecClaim"
 	}
 	panic(i.K)
 }
 
 func genMix(r *lib.Rand, i int, seed int64) *MixCase {
 	n := int64(100 + r.Intn(900))
-	mc := &MixCase{Seed: seed, N: n}
+	mc := &MixCase{Seed: seed, N: n, P: int64(2 + r.Intn(60)), Q: int64(1 + r.Intn(80))}
 	mode := i % 4 // 0,1: anything; 2: running EVM only; 3: bridge calls first
 	k := 1 + r.Pick(5)
 	amt := func() int64 {
@@ -602,12 +610,21 @@ func genMix(r *lib.Rand, i int, seed int64) *MixCase {
 			rest = append(rest, MInstr{K: "Approve", X: a + int64(r.Pick(3)) - 1})
 			in = MInstr{K: "CrossChain", X: a}
 		default:
-			in = MInstr{K: "BridgeCall", X: amt()}
+			switch r.Pick(4) {
+			case 0:
+				in = MInstr{K: "Cancel"}
+			case 1:
+				in = MInstr{K: "ExecClaim"}
+			default:
+				in = MInstr{K: "BridgeCall", X: amt()}
+			}
 		}
-		if in.K == "BridgeCall" && mode == 2 {
+		isNested := in.K == "BridgeCall" || in.K == "Cancel" || in.K == "ExecClaim"
+		if isNested && mode == 2 {
 			in = MInstr{K: "Transfer", X: amt()}
+			isNested = false
 		}
-		if in.K == "BridgeCall" && mode == 3 {
+		if isNested && mode == 3 {
 			front = append(front, in)
 			continue
 		}
@@ -625,6 +642,39 @@ func (m *mixWorld) run(mc *MixCase, rep *lib.Report) string {
 	defer func() { c.Ctx = base }()
 	ctx := c.Ctx
 	tokAddr := m.tok.ERC20
+	// before the transaction: the contract gets N+P tokens, sends P out with crossChain (its own unbatched transfer #id,
+	// with the ERC-20 relation), and a SendToFx of Q for it (erc20 target) is observed but not yet executed
+	c.EnsureAccount(ctx, m.C.Bytes())
+	_, err0 := c.App.Erc20Keeper.ConvertCoin(ctx, &erc20types.MsgConvertCoin{Coin: lib.Coin(m.tok.Base, mc.N+mc.P), Receiver: m.C.Hex(), Sender: m.u.Acc().String()})
+	lib.Must(err0)
+	{
+		pre := &lib.Asm{}
+		d, _ := fip20.Pack("approve", lib.CrosschainPrecompile, big.NewInt(mc.P))
+		pre.Call(lib.CALL, tokAddr, 0, nil, d).RequireSuccess()
+		d2, err := precompile.NewCrossChainMethod(nil).PackInput(crosschaintypes.CrossChainArgs{Token: tokAddr, Receipt: lib.ExternalAccount(c.Seed, "eth", 1),
+			Amount: big.NewInt(mc.P - 1), Fee: big.NewInt(1), Target: fxtypes.MustStrToByte32("eth"), Memo: ""})
+		lib.Must(err)
+		pre.Call(lib.CALL, lib.CrosschainPrecompile, 0, nil, d2).RequireSuccess().Stop()
+		c.InstallCode(ctx, m.C, pre.B)
+		if r0 := c.EvmCall(ctx, m.u.Hex(), &m.C, nil, 8_000_000, nil); r0.Err != nil || r0.Failed {
+			panic(fmt.Sprint("mixed set-up transaction failed: ", r0.Err, r0.VmError))
+		}
+	}
+	var ids []uint64
+	for _, tx := range m.x.Keeper.GetUnbatchedTransactions(ctx) {
+		ids = append(ids, tx.Id)
+	}
+	if len(ids) != 1 {
+		panic("mixed set-up: expected one pending transfer")
+	}
+	nextID := ids[0] + 1
+	claimNonce := m.x.Keeper.GetLastObservedEventNonce(ctx) + 1
+	for _, e := range m.x.ObserveAll(func() crosschaintypes.ExternalClaim {
+		return &crosschaintypes.MsgSendToFxClaim{EventNonce: claimNonce, BlockHeight: 1002, TokenContract: m.tok.Alias("eth").Contract, Amount: sdkmath.NewInt(mc.Q),
+			Sender: lib.ExternalAccount(c.Seed, "eth", 0), Receiver: sdk.AccAddress(m.C.Bytes()).String(), TargetIbc: fmt.Sprintf("%x", "erc20")}
+	}) {
+		_ = e
+	}
 	// assemble the contract
 	asm := &lib.Asm{}
 	for _, in := range mc.Prog {
@@ -647,6 +697,21 @@ func (m *mixWorld) run(mc *MixCase, rep *lib.Report) string {
 				Amount: big.NewInt(in.X - 1), Fee: big.NewInt(1), Target: fxtypes.MustStrToByte32("eth"), Memo: ""})
 			lib.Must(err)
 			asm.Call(lib.CALL, lib.CrosschainPrecompile, 0, nil, d).RequireSuccess()
+			ids = append(ids, nextID)
+			nextID++
+		case "Cancel":
+			id := uint64(0) // no own transfer left: the call fails
+			if len(ids) > 0 {
+				id = ids[len(ids)-1]
+				ids = ids[:len(ids)-1]
+			}
+			d, err := precompile.NewCancelSendToExternalMethod(nil).PackInput("eth", new(big.Int).SetUint64(id))
+			lib.Must(err)
+			asm.Call(lib.CALL, lib.CrosschainPrecompile, 0, nil, d).RequireSuccess()
+		case "ExecClaim":
+			d, err := precompile.NewExecuteClaimMethod(nil).PackInput(crosschaintypes.ExecuteClaimArgs{Chain: "eth", EventNonce: new(big.Int).SetUint64(claimNonce)})
+			lib.Must(err)
+			asm.Call(lib.CALL, lib.CrosschainPrecompile, 0, nil, d).RequireSuccess()
 		case "BridgeCall":
 			d, err := precompile.NewBridgeCallMethod(nil).PackInput(crosschaintypes.BridgeCallArgs{DstChain: "eth", Refund: m.C, Tokens: []common.Address{tokAddr},
 				Amounts: []*big.Int{big.NewInt(in.X)}, To: common.HexToAddress("0x00000000000000000000000000000000000000e1"), Data: []byte{}, Value: big.NewInt(0), Memo: []byte{}})
@@ -656,9 +721,6 @@ func (m *mixWorld) run(mc *MixCase, rep *lib.Report) string {
 	}
 	asm.Stop()
 	c.InstallCode(ctx, m.C, asm.B)
-	c.EnsureAccount(ctx, m.C.Bytes())
-	_, err := c.App.Erc20Keeper.ConvertCoin(ctx, &erc20types.MsgConvertCoin{Coin: lib.Coin(m.tok.Base, mc.N), Receiver: m.C.Hex(), Sender: m.u.Acc().String()})
-	lib.Must(err)
 	res := c.EvmCall(ctx, m.u.Hex(), &m.C, nil, 8_000_000, nil)
 	mc.OK = res.Err == nil && !res.Failed
 	// observables
@@ -685,12 +747,14 @@ func (m *mixWorld) run(mc *MixCase, rep *lib.Report) string {
 		mc.Obs = append(mc.Obs, v.String())
 	}
 	hasPre, afterTouch, touched := false, false, false
+	shape := ""
 	for _, in := range mc.Prog {
 		prog = append(prog, in.Coq())
-		if in.K == "BridgeCall" {
+		if in.K == "BridgeCall" || in.K == "Cancel" || in.K == "ExecClaim" {
 			hasPre = true
-			if touched {
+			if touched && !afterTouch {
 				afterTouch = true
+				shape = map[string]string{"BridgeCall": "bridgeCall", "Cancel": "cancelSendToExternal", "ExecClaim": "executeClaim"}[in.K]
 			}
 		} else {
 			touched = true // every other instruction reads or writes the token's storage through the outer StateDB
@@ -710,14 +774,14 @@ func (m *mixWorld) run(mc *MixCase, rep *lib.Report) string {
 	if total.Cmp(esc) != 0 || sum.Cmp(total) != 0 {
 		pat := "unexplained"
 		if afterTouch && mc.OK {
-			pat = "bridgeCall-after-token-access"
+			pat = shape + "-after-token-access"
 		}
 		rep.Fail(lib.Failure{Kind: "monitor",
 			What: fmt.Sprintf("mixed EVM transaction [%s] by a contract holding %d tokens: after it totalSupply=%s, escrow=%s, balances C=%s X=%s module=%s (sum %s), bridged out=%s — the books are unbalanced",
 				strings.Join(prog, "; "), mc.N, total, esc, bC, bX, bM, sum, out),
 			Sig: "C08:mixed-evm:" + pat, Replay: map[string]interface{}{"part": "mixed", "case": mc}})
 	}
-	return fmt.Sprintf("mk_mcase %d %s %s %s", mc.N, lib.List(prog), lib.Bool(mc.OK), lib.List(obsS))
+	return fmt.Sprintf("mk_mcase %d %d %d %s %s %s", mc.N, mc.P, mc.Q, lib.List(prog), lib.Bool(mc.OK), lib.List(obsS))
 }
 
 // ======================================================================================================
@@ -744,7 +808,7 @@ func replay(c *lib.Chain, x *lib.XChain, rep *lib.Report) {
 		m := setupMixed(c, x)
 		var in MixCase
 		lib.Must(json.Unmarshal(doc.Replay.Case, &in))
-		mc := &MixCase{Seed: in.Seed, N: in.N, Prog: in.Prog}
+		mc := &MixCase{Seed: in.Seed, N: in.N, P: in.P, Q: in.Q, Prog: in.Prog}
 		fmt.Println(m.run(mc, rep))
 	case "legacy":
 		var gc GCase
